@@ -31,7 +31,8 @@ def runner_tasks(tier):
     return [{"module": "c02", "task": "sample", "kind": "bounded", "clause": "all clauses, in floats"},
             {"module": "c02", "task": "init_kinds", "kind": "bounded", "clause": "initializer kinds of formula()"},
             {"module": "stateful", "task": "C02", "name": "stateful", "kind": "bounded", "clause": "returned containers are the caller's; operands unchanged also when the result is later extended in place; trace counts; ion and isotope-ion of one element kept apart; history independence"},
-            {"module": "stateful", "task": "identity", "name": "atom identity", "kind": "bounded", "clause": "different atoms are unequal, distinct dictionary keys, kept apart by formulas"}]
+            {"module": "stateful", "task": "identity", "name": "atom identity", "kind": "bounded", "clause": "different atoms are unequal, distinct dictionary keys, kept apart by formulas"},
+            {"module": "independence", "task": "observations", "name": "independence", "kind": "bounded", "arg": {"tags": ["C02"]}, "clause": "fixed observations give the same value as the first use of the library in a fresh interpreter, in a warmed-up interpreter (twice) and in reverse order, and have their documented value", "timeout": 900}]
 
 
 REPLAY = {"module": "c02", "task": "replay"}
